@@ -174,7 +174,6 @@ pub fn lex(song: &mut Song, src: &str, lineno: isize) -> Vec<Token> {
             _ => {
                 let msg = format!("{}", ch);
                 lex_error(&mut cur, song, &msg);
-                cur.next();
             }
         }
     }
